@@ -336,8 +336,7 @@ theorem no_result_after {t : Topo} {s s' : State} {l : Label} (hr : s.running 0 
     · split at h
       · cases h
       cases h
-      refine same ?_
-      split <;> rfl
+      exact same rfl
     · cases h
   | wake n c' =>
     simp only [step, wake] at h
